@@ -41,6 +41,7 @@
 pub const EPOCH_COMPUTATIONAL_RATA_DIE: i32 = 719_468;
 pub const DAYS_IN_A_400Y_CYCLE: u32 = 146_097;
 
+#[cfg(any(test, feature = "tzdb"))]
 const TWO_POWER_THIRTY_NINE: u64 = 549_755_813_888; // 2^39 constant
 const TWO_POWER_THIRTY_TWO: u64 = 4_294_967_296; // 2^32 constant
 const TWO_POWER_SIXTEEN: u32 = 65_536; // 2^16 constant
@@ -72,6 +73,7 @@ const fn rata_die_first_equations(year: i32, month: u8, day: u8) -> (u32, i32, i
 // Computational days to gregorian YMD
 
 // Determine j
+#[cfg(any(test, feature = "tzdb"))]
 const fn j(rata_die: u32) -> u32 {
     (computational_day_of_year(rata_die) >= 306) as u32
 }
@@ -80,6 +82,7 @@ const fn n_one(rata_die: u32) -> u32 {
     4 * rata_die + 3
 }
 
+#[cfg(any(test, feature = "tzdb"))]
 const fn n_two(rata_die: u32) -> u32 {
     century_rem(rata_die) | 3
 }
@@ -97,10 +100,12 @@ const fn first_equations(rata_die: u32) -> (u32, u32) {
     (century_num, century_rem)
 }
 
+#[cfg(any(test, feature = "tzdb"))]
 const fn century_rem(rata_die: u32) -> u32 {
     n_one(rata_die).rem_euclid(DAYS_IN_A_400Y_CYCLE)
 }
 
+#[cfg(any(test, feature = "tzdb"))]
 pub const fn century_number(rata_die: u32) -> u32 {
     n_one(rata_die).div_euclid(DAYS_IN_A_400Y_CYCLE)
 }
@@ -129,16 +134,19 @@ const fn third_equations(rata_die: u32) -> (u32, u32, u32, u32) {
 }
 
 // Z
+#[cfg(any(test, feature = "tzdb"))]
 pub const fn computational_year_of_century(rata_die: u32) -> u64 {
     (376_287_347 * n_two(rata_die) as u64).div_euclid(TWO_POWER_THIRTY_NINE)
 }
 
 // N_y
+#[cfg(any(test, feature = "tzdb"))]
 pub const fn computational_day_of_year(rata_die: u32) -> u32 {
     (n_two(rata_die) - 1461 * computational_year_of_century(rata_die) as u32).div_euclid(4)
 }
 
 // Y
+#[cfg(any(test, feature = "tzdb"))]
 pub const fn computational_year(rata_die: u32) -> u32 {
     100 * century_number(rata_die) + computational_year_of_century(rata_die) as u32
 }
@@ -148,6 +156,7 @@ pub const fn computational_month(rata_die: u32) -> u32 {
     n_three(rata_die).div_euclid(TWO_POWER_SIXTEEN)
 }
 
+#[cfg(any(test, feature = "tzdb"))]
 pub const fn year(computational_rata_die: u32, shift_constant: i32) -> i32 {
     (computational_year(computational_rata_die) + j(computational_rata_die)) as i32 - shift_constant
 }
